@@ -426,15 +426,84 @@ class Tracer:
         for name in ("stat", "lstat", "access", "readlink"):
             o[name] = getattr(os, name)
 
+        # The virtual volumes are visible in st_dev too (a program may compare device numbers instead of asking
+        # os.path.ismount): every stat result handed to the program carries the number of the virtual volume the entry
+        # lives on - os.stat / os.lstat / os.fstat and DirEntry.stat alike, so that they stay comparable with each other.
+        vols = sorted(t.mounts_real)
+        devno = {m: 7001 + k for k, m in enumerate(vols)}
+
+        def with_dev(st, phys):
+            if phys is None or not t.inside(phys):
+                return st
+            cls, (seq, extra) = st.__reduce__()
+            seq = list(seq)
+            seq[2] = devno[t.dev(phys)]
+            return os.stat_result(tuple(seq), extra)
+
+        def phys_of(path, dir_fd, follow):
+            t.internal += 1
+            try:
+                if isinstance(path, int):
+                    return os.fsencode(os.readlink("/proc/self/fd/%d" % path))
+                c = t._canon(path, dir_fd)
+                return os.path.realpath(c) if follow else c
+            except (OSError, ValueError):
+                return None
+            finally:
+                t.internal -= 1
+
         def mk_read(name):
             orig = o[name]
 
             def wrapper(path, *a, **kw):
                 if not isinstance(path, int):
                     t.read_point(name, path)
-                return orig(path, *a, **kw)
+                r = orig(path, *a, **kw)
+                if name in ("stat", "lstat") and not t.internal:
+                    follow = name == "stat" and kw.get("follow_symlinks", True)
+                    r = with_dev(r, phys_of(path, kw.get("dir_fd"), follow))
+                return r
             return wrapper
         os.stat, os.lstat, os.access, os.readlink = mk_read("stat"), mk_read("lstat"), mk_read("access"), mk_read("readlink")
+        os.supports_follow_symlinks.add(os.stat)      # shutil looks the stand-in up there (copystat of a link's own attributes)
+        o["fstat"] = os.fstat
+
+        def fstat(fd):
+            r = o["fstat"](fd)
+            return r if t.internal else with_dev(r, phys_of(fd, None, False))
+        os.fstat = fstat
+
+        class Entry:
+            """os.DirEntry with the virtual device number in its stat results"""
+            def __init__(self, e, base=None):
+                self._e = e
+                self.name, self.path = e.name, e.path
+                self._full = e.path if base is None else os.path.join(base, os.fsencode(e.name))
+
+            def __fspath__(self):
+                return self._e.path
+
+            def inode(self):
+                return self._e.inode()
+
+            def is_dir(self, *, follow_symlinks=True):
+                return self._e.is_dir(follow_symlinks=follow_symlinks)
+
+            def is_file(self, *, follow_symlinks=True):
+                return self._e.is_file(follow_symlinks=follow_symlinks)
+
+            def is_symlink(self):
+                return self._e.is_symlink()
+
+            def is_junction(self):
+                return False
+
+            def stat(self, *, follow_symlinks=True):
+                r = self._e.stat(follow_symlinks=follow_symlinks)
+                return r if t.internal else with_dev(r, phys_of(self._full, None, follow_symlinks))
+
+            def __repr__(self):
+                return "<Entry %r>" % (self.name,)
 
         def listdir(path="."):
             if not isinstance(path, int):
@@ -445,7 +514,14 @@ class Tracer:
         class SortedScandir:
             def __init__(self, path):
                 self.it = o["scandir"](path)
-                self.entries = sorted(self.it, key=lambda e: os.fsencode(e.name))
+                base = None
+                if isinstance(path, int):          # scandir(fd): the entries' paths are bare names
+                    t.internal += 1
+                    try:
+                        base = os.fsencode(os.readlink("/proc/self/fd/%d" % path))
+                    finally:
+                        t.internal -= 1
+                self.entries = [Entry(e, base) for e in sorted(self.it, key=lambda e: os.fsencode(e.name))]
 
                 self.pos = 0
 
